@@ -37,7 +37,17 @@ func (i iv) String() string {
 	return "[" + f(i.s) + "," + f(i.e) + "]"
 }
 
-func (i iv) toAst(scale int64) ast.Interval {
+// c13Origin shifts the small timeline before scaling (ns = (x - origin) * scale); 0 except for the far-apart family.
+// It is a field of the configuration; toAst/fromAst take the pair through c13Cfg.
+func (i iv) toAst(scale int64, origin ...int64) ast.Interval {
+	o := int64(0)
+	if len(origin) > 0 {
+		o = origin[0]
+	}
+	return i.toAstAffine(scale, o)
+}
+
+func (i iv) toAstAffine(scale, origin int64) ast.Interval {
 	b := func(x int64) ast.TemporalBound {
 		if x == negInf {
 			return ast.NegativeInfinity()
@@ -45,16 +55,20 @@ func (i iv) toAst(scale int64) ast.Interval {
 		if x == posInf {
 			return ast.PositiveInfinity()
 		}
-		return ast.NewTimestampBound(time.Unix(0, x*scale))
+		return ast.NewTimestampBound(time.Unix(0, (x-origin)*scale))
 	}
 	return ast.NewInterval(b(i.s), b(i.e))
 }
 
-func fromAst(a ast.Interval, scale int64) iv {
+func fromAst(a ast.Interval, scale int64, origin ...int64) iv {
+	o := int64(0)
+	if len(origin) > 0 {
+		o = origin[0]
+	}
 	f := func(b ast.TemporalBound, neg bool) int64 {
 		switch b.Type {
 		case ast.TimestampBound:
-			return b.Timestamp / scale
+			return b.Timestamp/scale + o
 		case ast.NegativeInfinityBound:
 			return negInf
 		case ast.PositiveInfinityBound:
@@ -92,7 +106,11 @@ type c13Cfg struct {
 	names []string
 	limit int // 0 = default
 	scale int64
+	// origin of the affine timeline: nanoseconds = (point - origin) * scale
+	origin int64
 }
+
+func (c *c13Cfg) ns(x int64) int64 { return (x - c.origin) * c.scale }
 
 type pairKey struct {
 	atom int
@@ -113,7 +131,7 @@ func c13Node(r *rt.Run, cfg *c13Cfg, ops []c13Op, label string) {
 	for _, o := range ops {
 		opsW = append(opsW, map[string]any{"atom": o.atom, "s": fmt.Sprint(o.iv.s), "e": fmt.Sprint(o.iv.e)})
 	}
-	w := map[string]any{"family": label, "ops": opsW, "history": strings.Join(hist, "; "), "limit": cfg.limit, "scale": cfg.scale, "atoms": cfg.names, "store": "temporal"}
+	w := map[string]any{"family": label, "ops": opsW, "history": strings.Join(hist, "; "), "limit": cfg.limit, "scale": cfg.scale, "origin": cfg.origin, "atoms": cfg.names, "store": "temporal"}
 	var kind, detail string
 	pv, stk := rt.Try(func() { kind, detail = c13Run(r, cfg, ops) })
 	if pv != nil {
@@ -162,7 +180,7 @@ func c13Run(r *rt.Run, cfg *c13Cfg, ops []c13Op) (string, string) {
 		return kind, detail
 	}
 	for idx, o := range ops {
-		added, err := st.Add(cfg.atoms[o.atom], o.iv.toAst(cfg.scale))
+		added, err := st.Add(cfg.atoms[o.atom], o.iv.toAst(cfg.scale, cfg.origin))
 		k := pairKey{o.atom, o.iv}
 		wantAdded, wantErr := false, false
 		switch {
@@ -187,7 +205,7 @@ func c13Run(r *rt.Run, cfg *c13Cfg, ops []c13Op) (string, string) {
 			}
 		}
 		if o.atom == 0 {
-			ins := tree.Insert(o.iv.toAst(cfg.scale))
+			ins := tree.Insert(o.iv.toAst(cfg.scale, cfg.origin))
 			if ins == treeModel[o.iv] && idx == len(ops)-1 {
 				return "tree-insert-return", fmt.Sprintf("IntervalTree.Insert(%s) returned %v", o.iv, ins)
 			}
@@ -228,7 +246,7 @@ func c13Run(r *rt.Run, cfg *c13Cfg, ops []c13Op) (string, string) {
 	for ai, a := range cfg.atoms {
 		st.GetAllFacts(a, func(tf factstore.TemporalFact) error {
 			if tf.Atom.Equals(a) {
-				after[pairKey{ai, fromAst(tf.Interval, cfg.scale)}]++
+				after[pairKey{ai, fromAst(tf.Interval, cfg.scale, cfg.origin)}]++
 			}
 			return nil
 		})
@@ -254,7 +272,7 @@ func c13Run(r *rt.Run, cfg *c13Cfg, ops []c13Op) (string, string) {
 			if h != holdsBefore[ai][t] {
 				return viol("coalesce-changes-instants", fmt.Sprintf("Coalesce changed whether %s holds at t=%d: before %v after %v", cfg.names[ai], t, holdsBefore[ai][t], h))
 			}
-			if got := st.ContainsAt(cfg.atoms[ai], time.Unix(0, t*cfg.scale)); got != h {
+			if got := st.ContainsAt(cfg.atoms[ai], time.Unix(0, cfg.ns(t))); got != h {
 				return viol("coalesce-containsat", fmt.Sprintf("after Coalesce ContainsAt(%s,%d)=%v, stored intervals say %v", cfg.names[ai], t, got, h))
 			}
 		}
@@ -267,8 +285,9 @@ func c13Run(r *rt.Run, cfg *c13Cfg, ops []c13Op) (string, string) {
 		sort.Slice(fin, func(i, j int) bool { return fin[i].s < fin[j].s })
 		for i := 1; i < len(fin); i++ {
 			// at nanosecond granularity (scale 1) adjacency is e+1 == s; at other scales timestamps are scale-multiples
-			gapNs := fin[i].s*cfg.scale - fin[i-1].e*cfg.scale
-			if gapNs <= 1 {
+			// the gap in nanoseconds is (s - e) * scale; decided without multiplying (the far-apart family would overflow)
+			d := fin[i].s - fin[i-1].e
+			if d <= 0 || d == 1 && cfg.scale == 1 {
 				return viol("coalesce-not-disjoint", fmt.Sprintf("after Coalesce %s keeps finite intervals %s and %s (overlapping or adjacent)", cfg.names[ai], fin[i-1], fin[i]))
 			}
 		}
@@ -302,7 +321,7 @@ func c13Observe(cfg *c13Cfg, st *factstore.TemporalStore, model map[pairKey]bool
 				bad = "delivered unknown atom " + tf.Atom.String()
 				return nil
 			}
-			got[pairKey{ai, fromAst(tf.Interval, cfg.scale)}]++
+			got[pairKey{ai, fromAst(tf.Interval, cfg.scale, cfg.origin)}]++
 			return nil
 		})
 		return got, bad
@@ -363,7 +382,7 @@ func c13Observe(cfg *c13Cfg, st *factstore.TemporalStore, model map[pairKey]bool
 					want[k] = true
 				}
 			}
-			tt := time.Unix(0, t*cfg.scale)
+			tt := time.Unix(0, cfg.ns(t))
 			got, bad := collect(func(qq ast.Atom, fn func(factstore.TemporalFact) error) error { return st.GetFactsAt(qq, tt, fn) }, q.q, qi)
 			if bad != "" {
 				return "query-extra", bad
@@ -390,7 +409,7 @@ func c13Observe(cfg *c13Cfg, st *factstore.TemporalStore, model map[pairKey]bool
 					want[k] = true
 				}
 			}
-			ra := rg.toAst(cfg.scale)
+			ra := rg.toAst(cfg.scale, cfg.origin)
 			got, bad := collect(func(qq ast.Atom, fn func(factstore.TemporalFact) error) error { return st.GetFactsDuring(qq, ra, fn) }, q.q, qi)
 			if bad != "" {
 				return "query-extra", bad
@@ -408,7 +427,7 @@ func c13Observe(cfg *c13Cfg, st *factstore.TemporalStore, model map[pairKey]bool
 					want = true
 				}
 			}
-			if got := st.ContainsAt(a, time.Unix(0, t*cfg.scale)); got != want {
+			if got := st.ContainsAt(a, time.Unix(0, cfg.ns(t))); got != want {
 				return "containsat", fmt.Sprintf("ContainsAt(%s,%d)=%v, stored intervals say %v", cfg.names[ai], t, got, want)
 			}
 		}
@@ -437,13 +456,13 @@ func c13ObserveTree(cfg *c13Cfg, tree *factstore.IntervalTree, model map[iv]bool
 		return "", ""
 	}
 	got := map[iv]int{}
-	tree.All(func(a ast.Interval) error { got[fromAst(a, cfg.scale)]++; return nil })
+	tree.All(func(a ast.Interval) error { got[fromAst(a, cfg.scale, cfg.origin)]++; return nil })
 	if k, d := cmp("All()", got, func(iv) bool { return true }); k != "" {
 		return k, d
 	}
 	for _, t := range c13Points() {
 		got := map[iv]int{}
-		tree.QueryPoint(t*cfg.scale, func(a ast.Interval) error { got[fromAst(a, cfg.scale)]++; return nil })
+		tree.QueryPoint(cfg.ns(t), func(a ast.Interval) error { got[fromAst(a, cfg.scale, cfg.origin)]++; return nil })
 		if k, d := cmp(fmt.Sprintf("QueryPoint(%d)", t), got, func(k iv) bool { return k.s <= t && t <= k.e }); k != "" {
 			return k, d
 		}
@@ -452,7 +471,7 @@ func c13ObserveTree(cfg *c13Cfg, tree *factstore.IntervalTree, model map[iv]bool
 				continue
 			}
 			got := map[iv]int{}
-			tree.QueryRange(t*cfg.scale, t2*cfg.scale, func(a ast.Interval) error { got[fromAst(a, cfg.scale)]++; return nil })
+			tree.QueryRange(cfg.ns(t), cfg.ns(t2), func(a ast.Interval) error { got[fromAst(a, cfg.scale, cfg.origin)]++; return nil })
 			if k, d := cmp(fmt.Sprintf("QueryRange(%d,%d)", t, t2), got, func(k iv) bool { return k.s <= t2 && t <= k.e }); k != "" {
 				return k, d
 			}
@@ -479,7 +498,10 @@ func c13(r *rt.Run) {
 		_, w := rt.ReadReplay(r.Replay)
 		names := toStrings(w["atoms"])
 		atoms := evalGround(names)
-		cfg := &c13Cfg{atoms, names, int(w["limit"].(float64)), int64(w["scale"].(float64))}
+		cfg := &c13Cfg{atoms: atoms, names: names, limit: int(w["limit"].(float64)), scale: int64(w["scale"].(float64))}
+		if o, ok := w["origin"].(float64); ok {
+			cfg.origin = int64(o)
+		}
 		var ops []c13Op
 		for _, o := range w["ops"].([]any) {
 			m := o.(map[string]any)
@@ -507,9 +529,9 @@ func c13(r *rt.Run) {
 		if r.Thorough() {
 			d = 4
 		}
-		fams = append(fams, fam{"single-atom", &c13Cfg{one, oneN, 0, scale}, all, d})
+		fams = append(fams, fam{"single-atom", &c13Cfg{atoms: one, names: oneN, limit: 0, scale: scale}, all, d})
 		if !r.Thorough() {
-			fams = append(fams, fam{"single-atom-deep", &c13Cfg{one, oneN, 0, scale}, small, 4})
+			fams = append(fams, fam{"single-atom-deep", &c13Cfg{atoms: one, names: oneN, limit: 0, scale: scale}, small, 4})
 		}
 		if scale == 1 {
 			// deep histories with repetition over few intervals that share start points: reaches every
@@ -520,15 +542,21 @@ func c13(r *rt.Run) {
 				eq = append(eq, iv{2, 2}, iv{1, 5})
 				d = 7
 			}
-			fams = append(fams, fam{"single-atom-equal-starts-deep", &c13Cfg{one, oneN, 0, scale}, eq, d})
+			fams = append(fams, fam{"single-atom-equal-starts-deep", &c13Cfg{atoms: one, names: oneN, limit: 0, scale: scale}, eq, d})
+		}
+		if scale == 1 {
+			// a timeline whose points are about 2^61 ns (73 years) apart and centred on the epoch: distances between
+			// stored intervals exceed what a signed 64-bit subtraction can hold
+			far := &c13Cfg{atoms: one, names: oneN, limit: 0, scale: 1<<61 - 7, origin: 3}
+			fams = append(fams, fam{"single-atom-far-apart", far, []iv{{0, 0}, {0, 1}, {1, 1}, {2, 3}, {4, 5}, {5, 5}, {0, 5}, {negInf, 0}, {5, posInf}, {3, 3}}, 3})
 		}
 		if scale != 1 && !r.Thorough() {
 			continue
 		}
-		fams = append(fams, fam{"three-atoms", &c13Cfg{three, threeN, 0, scale}, eight, 3})
-		fams = append(fams, fam{"colliding-atoms", &c13Cfg{coll, collN, 0, scale}, eight[:5], 3})
+		fams = append(fams, fam{"three-atoms", &c13Cfg{atoms: three, names: threeN, limit: 0, scale: scale}, eight, 3})
+		fams = append(fams, fam{"colliding-atoms", &c13Cfg{atoms: coll, names: collN, limit: 0, scale: scale}, eight[:5], 3})
 		for _, lim := range []int{1, 2, 3} {
-			fams = append(fams, fam{fmt.Sprintf("limit-%d", lim), &c13Cfg{one, oneN, lim, scale}, eight, 4})
+			fams = append(fams, fam{fmt.Sprintf("limit-%d", lim), &c13Cfg{atoms: one, names: oneN, limit: lim, scale: scale}, eight, 4})
 		}
 	}
 	for _, f := range fams {
@@ -574,7 +602,7 @@ func c13(r *rt.Run) {
 	}
 	for si, set := range sets {
 		perms := permutations(len(set))
-		cfg := &c13Cfg{one, oneN, 0, 1}
+		cfg := &c13Cfg{atoms: one, names: oneN, limit: 0, scale: 1}
 		set := set
 		rt.ForRange(len(perms), func(pi int) {
 			if r.Expired("C13 permutations") {
